@@ -70,11 +70,13 @@ Lemma FdInv_transfer : forall x x' s s',
   (forall k, live s x k -> fdnum (fdt s' k) = fdnum (fdt s k) /\ regb (fdt s' k) = regb (fdt s k) /\
              pidx (fdt s' k) = pidx (fdt s k)) ->
   active s' = active s -> handled s' = handled s -> notify s' = notify s ->
-  pfds s' = pfds s -> pkeys s' = pkeys s -> method s' = method s -> kern s' = kern s ->
+  pfds s' = pfds s -> pkeys s' = pkeys s -> method s' = method s ->
+  (ep (kern s') = ep (kern s) /\ (forall fd, k_open (kern s') fd = k_open (kern s) fd) /\
+   (forall fd, k_get (kern s') fd = k_get (kern s) fd)) ->
   active_fd s' = active_fd s -> active_ref s' = active_ref s -> tfd s' = tfd s ->
   FdInv x' s'.
 Proof.
-  intros x x' s s' I L RG U F Ea Eh En Ep Epk Em Ek Eaf Ear Et.
+  intros x x' s s' I L RG U F Ea Eh En Ep Epk Em (Ek & Ko & Kg) Eaf Ear Et.
   assert (Fn : forall k, live s x k -> fdnum (fdt s' k) = fdnum (fdt s k)) by (intros k H; apply (F k H)).
   assert (Fr : forall k, live s x k -> regb (fdt s' k) = regb (fdt s k)) by (intros k H; apply (F k H)).
   assert (Fp : forall k, live s x k -> pidx (fdt s' k) = pidx (fdt s k)) by (intros k H; apply (F k H)).
@@ -83,7 +85,7 @@ Proof.
   - assumption.
   - assumption.
   - intros k H1 H2. apply L in H2. rewrite Fn by assumption. apply (fv_dyn _ _ I); assumption.
-  - intros k H. apply L in H. rewrite Fn, Ek by assumption. apply (fv_open _ _ I); assumption.
+  - intros k H. apply L in H. rewrite Fn, Ko by assumption. apply (fv_open _ _ I); assumption.
   - intros k1 k2 H1 H2. apply L in H1. apply L in H2. rewrite !Fn by assumption. apply (fv_inj _ _ I); assumption.
   - intros k H. rewrite Ea in H. apply L. apply (fv_active _ _ I); assumption.
   - intros k H. rewrite Eh in H. apply L. apply (fv_handled _ _ I); assumption.
@@ -96,7 +98,7 @@ Proof.
   - rewrite Ee, Ek. intros E k H. apply L in H. rewrite Fr, Fn by assumption. apply (fv_has _ _ I); assumption.
   - rewrite Ee, Ek. intros E k H. apply L in H. rewrite Fr, Fn by assumption. apply (fv_none _ _ I); assumption.
   - rewrite Ek. apply (fv_nodup _ _ I).
-  - rewrite Ek. apply (fv_ealloc _ _ I).
+  - rewrite Ek. intros e H. rewrite Kg. apply (fv_ealloc _ _ I). assumption.
   - rewrite Ear. apply (fv_ref _ _ I).
   - rewrite Ear, Ek, Eaf. apply (fv_kick _ _ I).
   - rewrite Ep, Epk. apply (fv_plen _ _ I).
@@ -115,7 +117,8 @@ Lemma FdInv_eq : forall x s s',
   active_fd s' = active_fd s -> active_ref s' = active_ref s -> tfd s' = tfd s ->
   FdInv x s'.
 Proof.
-  intros x s s' I F. intros. eapply FdInv_transfer; try eassumption.
+  intros x s s' I F Ea Eh En Ep Epk Em Ek Eaf Ear Et. eapply FdInv_transfer; try eassumption.
+  5: { rewrite Ek. repeat split. }
   - intros k. unfold live. destruct (F k) as (_&_&_&->). tauto.
   - intros k. destruct (F k) as (_&_&_&->). apply (fv_range _ _ I).
   - intros k Hk. destruct (F k) as (->&_). apply (fv_user _ _ I). assumption.
@@ -167,7 +170,7 @@ Qed.
 Lemma FdInv_putfd_dead : forall x s k f', FdInv x s -> ~ live s x k ->
   registered f' = false -> (0 <= k < 16 -> fdnum f' = 100 + k) -> FdInv x (putfd s k f').
 Proof.
-  intros x s k f' I NL R U. eapply FdInv_transfer; [exact I| | | | |reflexivity..].
+  intros x s k f' I NL R U. eapply FdInv_transfer; [exact I| | | | |(repeat split)..].
   - intros k'. unfold live. sp. unfold upd. destruct (Z.eqb_spec k' k) as [->|N]; [|tauto].
     rewrite R. unfold live in NL. split; intros (A&[B|B]); try discriminate; tauto.
   - intros k'. sp. unfold upd. destruct (Z.eqb_spec k' k) as [->|N]; [congruence|apply (fv_range _ _ I)].
